@@ -270,3 +270,155 @@ theorem pl_columns_eq_spec :
   decide
 
 end V.C08
+
+/-! ## Histories of accepted power-level events
+
+The quantifier of C08 also ranges over *sequences* of accepted power-levels events starting from a room's initial state.
+The single-step theorem `accepted_pl_no_escalation` applies to every step of such a sequence (each step is judged
+against the content left by the previous one); the history-level consequence proved here is the **privilege ceiling**:
+no sequence of accepted power-levels events, of any length, ever gives any user (listed or defaulted) a level above the
+highest level any sender held when the sequence started. -/
+namespace V.C08
+open V V.Json V.GoJson V.Auth
+
+/-- every user's effective level (listed entry or `users_default`) is at most `C` -/
+def Ceiling (C : Int) (p : PowerLevels) : Prop := ∀ u : Bytes, p.userLevel u ≤ C
+
+theorem userLevel_unlisted (p : PowerLevels) (u : Bytes) (h : u ∉ p.users.map (·.1)) : p.userLevel u = p.usersDefault := by
+  unfold PowerLevels.userLevel
+  rw [mapGet_none_of_not_mem p.users u h]; rfl
+
+/-- One accepted step keeps the ceiling, provided the sender's own level was under it. -/
+theorem ceiling_step (C L : Int) (s : Bytes) (old new : PowerLevels) (hL : L ≤ C) (hc : Ceiling C old)
+    (h : NoEscalation L s old new) : Ceiling C new := by
+  intro u
+  by_cases hne : new.userLevel u = old.userLevel u
+  · rw [hne]; exact hc u
+  · by_cases hl : u ∈ new.users.map (·.1) ∨ u ∈ old.users.map (·.1)
+    · have := (h.users u hl hne).1; omega
+    · -- listed on neither side: the level is `users_default` before and after, and that named threshold changed
+      have hn : u ∉ new.users.map (·.1) := fun x => hl (Or.inl x)
+      have ho : u ∉ old.users.map (·.1) := fun x => hl (Or.inr x)
+      rw [userLevel_unlisted new u hn, userLevel_unlisted old u ho] at hne
+      rw [userLevel_unlisted new u hn]
+      have := (h.named (·.usersDefault) (by simp [namedLevels]) hne).2
+      omega
+
+/-- A history: from `cur`, a list of steps (sender level, sender, new content), each satisfying `NoEscalation`
+    against the content left by the previous step, every sender level being at most `C`. -/
+def Chain (C : Int) : PowerLevels → List (Int × Bytes × PowerLevels) → Prop
+  | _, [] => True
+  | cur, (L, s, new) :: rest => L ≤ C ∧ NoEscalation L s cur new ∧ Chain C new rest
+
+/-- the contents after each step -/
+def contentsAfter : PowerLevels → List (Int × Bytes × PowerLevels) → List PowerLevels
+  | _, [] => []
+  | _, (_, _, new) :: rest => new :: contentsAfter new rest
+
+/-- **Privilege ceiling over histories of any length.** -/
+theorem history_ceiling (C : Int) (p0 : PowerLevels) (steps : List (Int × Bytes × PowerLevels))
+    (h0 : Ceiling C p0) (hch : Chain C p0 steps) : ∀ p ∈ contentsAfter p0 steps, Ceiling C p := by
+  induction steps generalizing p0 with
+  | nil => intro p hp; cases hp
+  | cons st rest ih =>
+    obtain ⟨L, s, new⟩ := st
+    obtain ⟨hL, hne, hrest⟩ := hch
+    have hnew := ceiling_step C L s p0 new hL h0 hne
+    intro p hp
+    simp only [contentsAfter, List.mem_cons] at hp
+    rcases hp with rfl | hp
+    · exact hnew
+    · exact ih new hnew hrest p hp
+
+/-- The sender level the model uses is under the ceiling: with a power-levels event in force and a sender who is not a
+    privileged (v12) creator it is the sender's entry in the current content. -/
+theorem senderLevel_le_ceiling (a : Ctx) (u : Bytes) (C L : Int) (hc : Ceiling C a.pl)
+    (hpl : a.plEvent.isSome) (hnc : (a.privilegedCreators && a.creators.contains u) = false)
+    (h : a.userPowerLevel u = .ok L) : L ≤ C := by
+  unfold Ctx.userPowerLevel at h
+  rw [hnc] at h
+  simp only [Bool.false_eq_true, if_false] at h
+  cases hp : a.plEvent with
+  | none => simp [hp] at hpl
+  | some pe =>
+    simp only [hp] at h
+    cases h
+    exact hc u
+
+/-- A run of the model: contexts and the power-levels events they accept, each context holding as its current content
+    what the previous accepted event set (`Linked`). -/
+def Linked : List (Ctx × Event) → Prop
+  | [] => True
+  | [_] => True
+  | (_, e) :: (a', e') :: rest => powerLevelsFromEvent e = .ok a'.pl ∧ Linked ((a', e') :: rest)
+
+/-- **C08 over sequences (model level).**  Along every linked run in which each event is accepted by
+    `powerLevelsEventAllowed` (senders being ordinary users under a power-levels event), every step satisfies
+    `NoEscalation` against the content in force, and the privilege ceiling of the first content is never exceeded. -/
+theorem accepted_history (C : Int) (run : List (Ctx × Event))
+    (hacc : ∀ ae ∈ run, ae.1.powerLevelsEventAllowed ae.2 = .ok () ∧ ae.1.plEvent.isSome ∧
+              (ae.1.privilegedCreators && ae.1.creators.contains ae.2.sender) = false)
+    (hlink : Linked run) (h0 : ∀ ae, run.head? = some ae → Ceiling C ae.1.pl) :
+    ∀ ae ∈ run, AcceptedPL ae.1 ae.2 ∧ Ceiling C ae.1.pl ∧ ∀ new, powerLevelsFromEvent ae.2 = .ok new → Ceiling C new := by
+  induction run with
+  | nil => intro ae h; cases h
+  | cons hd rest ih =>
+    obtain ⟨a, e⟩ := hd
+    have hc0 : Ceiling C a.pl := h0 (a, e) rfl
+    obtain ⟨hok, hpl, hnc⟩ := hacc (a, e) (List.mem_cons_self ..)
+    have hA := accepted_pl_no_escalation a e hok
+    obtain ⟨newPL, L, hnew, hL, hne, _⟩ := hA.ex
+    have hLC := senderLevel_le_ceiling a e.sender C L hc0 hpl hnc hL
+    have hcn : Ceiling C newPL := ceiling_step C L e.sender a.pl newPL hLC hc0 hne
+    intro ae hmem
+    rcases List.mem_cons.mp hmem with rfl | hmem
+    · refine ⟨hA, hc0, ?_⟩
+      intro new hn
+      rw [hnew] at hn; cases hn; exact hcn
+    · apply ih (fun x hx => hacc x (List.mem_cons_of_mem _ hx))
+      · cases rest with
+        | nil => trivial
+        | cons hd2 tl => exact hlink.2
+      · intro ae' hh
+        cases rest with
+        | nil => cases hh
+        | cons hd2 tl =>
+          obtain ⟨a2, e2⟩ := hd2
+          simp only [List.head?_cons, Option.some.injEq] at hh
+          subst hh
+          have := hlink.1
+          rw [hnew] at this
+          cases this
+          exact hcn
+      · exact hmem
+
+/-- Notification levels, end to end: in the versions whose table entry is checkPowerLevelEventV2 / V3 (room version 6
+    and later, see `pl_columns_eq_spec`) an accepted power-levels event passed `checkNotificationLevels`, hence
+    `accepted_notifications` applies to it. -/
+theorem accepted_pl_notifications (a : Ctx) (e : Event) (old new : PowerLevels) (row : VGen.VersionRow)
+    (hrow : e.row = some row)
+    (hv : row.checkPowerLevelEvent = "checkPowerLevelEventV2" ∨ row.checkPowerLevelEvent = "checkPowerLevelEventV3")
+    (h : a.checkPowerLevelEvent e old new = .ok ()) : checkNotificationLevels e.sender old new = true := by
+  unfold Ctx.checkPowerLevelEvent at h
+  simp only [hrow] at h
+  have e1 : ("checkPowerLevelEventV2" == "checkPowerLevelEventV1") = false := by decide
+  have e2 : ("checkPowerLevelEventV2" == "checkPowerLevelEventV2") = true := by decide
+  have e3 : ("checkPowerLevelEventV3" == "checkPowerLevelEventV1") = false := by decide
+  have e4 : ("checkPowerLevelEventV3" == "checkPowerLevelEventV2") = false := by decide
+  have e5 : ("checkPowerLevelEventV3" == "checkPowerLevelEventV3") = true := by decide
+  by_cases hn : checkNotificationLevels e.sender old new = true
+  · exact hn
+  · exfalso
+    rcases hv with hv | hv <;>
+      simp [hv, e1, e3, e4, hn, notAllowed] at h
+
+/-- Non-vacuity of the history theorem's premises: a two-step chain under ceiling 100
+    (a level-100 user promotes b to 50; b then lowers `kick` to 40). -/
+example :
+    let p0 : PowerLevels := { PowerLevels.defaults with users := [(b!"@a:x", 100)] }
+    let p1 : PowerLevels := { PowerLevels.defaults with users := [(b!"@a:x", 100), (b!"@b:x", 50)] }
+    let p2 : PowerLevels := { PowerLevels.defaults with kick := 40, users := [(b!"@a:x", 100), (b!"@b:x", 50)] }
+    (checkEventLevels 100 p0 p1 = true ∧ checkUserLevels 100 b!"@a:x" p0 p1 = true) ∧
+    (checkEventLevels 50 p1 p2 = true ∧ checkUserLevels 50 b!"@b:x" p1 p2 = true) := by decide
+
+end V.C08
